@@ -30,6 +30,16 @@ func init() {
 			"the same neighbour name are resolved first-come in map order (information only).",
 		Run: runC14,
 		Mutants: []Mutant{
+			{Name: "timers-declared-outside-the-session-loop", File: "internal/bgp/frr/frr.go",
+				Old: "\tfor _, s := range sm.sessions {\n\t\tvar neighbor *neighborConfig\n\t\tvar exist bool\n\t\tvar rout *router\n\n\t\trouterName := RouterName(s.RouterID.String(), s.MyASN, s.VRFName)\n\t\tif rout, exist = routers[routerName]; !exist {\n\t\t\trout = &router{\n\t\t\t\tmyASN:               s.MyASN,\n\t\t\t\tneighbors:           make(map[string]*neighborConfig),\n\t\t\t\tneighborsProperties: make(map[string]*neighborProperties),\n\t\t\t\tipV4Prefixes:        make(map[string]string),\n\t\t\t\tipV6Prefixes:        make(map[string]string),\n\t\t\t\tvrf:                 s.VRFName,\n\t\t\t}\n\t\t\tif s.RouterID != nil {\n\t\t\t\trout.routerID = s.RouterID.String()\n\t\t\t}\n\t\t\trouters[routerName] = rout\n\t\t}\n\n\t\tneighborName := NeighborName(s.PeerAddress, s.PeerInterface, s.PeerASN, s.DynamicASN, s.VRFName)\n\t\tif neighbor, exist = rout.neighbors[neighborName]; !exist {\n\t\t\tfamily := ipfamily.ForAddress(net.ParseIP(s.PeerAddress))\n\n\t\t\tif s.PeerInterface != \"\" {\n\t\t\t\tfamily = ipfamily.DualStack\n\t\t\t}\n\n\t\t\tvar connectTime int64\n\t\t\tif s.ConnectTime != nil {\n\t\t\t\tconnectTime = int64(*s.ConnectTime / time.Second)\n\t\t\t}\n\n\t\t\tvar holdTime *int64\n\t\t\tvar keepaliveTime *int64\n",
+				New: "\tvar connectTime int64\n\tvar holdTime *int64\n\tvar keepaliveTime *int64\n\tfor _, s := range sm.sessions {\n\t\tvar neighbor *neighborConfig\n\t\tvar exist bool\n\t\tvar rout *router\n\n\t\trouterName := RouterName(s.RouterID.String(), s.MyASN, s.VRFName)\n\t\tif rout, exist = routers[routerName]; !exist {\n\t\t\trout = &router{\n\t\t\t\tmyASN:               s.MyASN,\n\t\t\t\tneighbors:           make(map[string]*neighborConfig),\n\t\t\t\tneighborsProperties: make(map[string]*neighborProperties),\n\t\t\t\tipV4Prefixes:        make(map[string]string),\n\t\t\t\tipV6Prefixes:        make(map[string]string),\n\t\t\t\tvrf:                 s.VRFName,\n\t\t\t}\n\t\t\tif s.RouterID != nil {\n\t\t\t\trout.routerID = s.RouterID.String()\n\t\t\t}\n\t\t\trouters[routerName] = rout\n\t\t}\n\n\t\tneighborName := NeighborName(s.PeerAddress, s.PeerInterface, s.PeerASN, s.DynamicASN, s.VRFName)\n\t\tif neighbor, exist = rout.neighbors[neighborName]; !exist {\n\t\t\tfamily := ipfamily.ForAddress(net.ParseIP(s.PeerAddress))\n\n\t\t\tif s.PeerInterface != \"\" {\n\t\t\t\tfamily = ipfamily.DualStack\n\t\t\t}\n\n\t\t\tif s.ConnectTime != nil {\n\t\t\t\tconnectTime = int64(*s.ConnectTime / time.Second)\n\t\t\t}\n\n", Expect: "built-from-its-own-session"},
+			{Name: "large-community-list-named-without-vrf", File: "internal/bgp/frr/config.go",
+				Old: "\t\t\t\treturn fmt.Sprintf(\"%s-large:%s-%s-community-prefixes\", neighbor.ID(), community, neighbor.IPFamily)",
+				New: "\t\t\t\treturn fmt.Sprintf(\"%s-large:%s-%s-community-prefixes\", neighbor.Addr, community, neighbor.IPFamily)", Expect: "NAME-SCOPE"},
+			{Name: "password-attached-to-address-not-peer", File: "internal/bgp/frr/templates/neighborsession.tmpl",
+				Old: "  neighbor {{$peer}} password {{.neighbor.Password}}", New: "  neighbor {{.neighbor.Addr}} password {{.neighbor.Password}}", Expect: "TPL-SCOPE"},
+			{Name: "insert-loses-the-element-at-the-position", File: "internal/bgp/frr/frr.go",
+				Old: "\tcopy(res[i+1:], current[i:])", New: "\tcopy(res[i+1:], current[i+1:])", Expect: "MERGE-GUARD"},
 			{Name: "unnumbered-neighbor-key-without-interface", File: "internal/bgp/frr/config.go",
 				Old: "\t\treturn fmt.Sprintf(\"%s@%s@%s\", asn, iface, vrfName)\n", New: "\t\treturn fmt.Sprintf(\"%s@%s@%s\", asn, peerAddr, vrfName)\n", Expect: "KEY-COMPLETE"},
 			{Name: "v6-large-community-falls-through", File: "internal/bgp/frr/frr.go",
@@ -72,6 +82,7 @@ func runC14(p *chk.Prog, r *chk.Report) {
 	if ts != nil {
 		c14Cover(p, r, ts)
 		c14Structure(p, r, ts)
+		c14NameScope(p, r, ts)
 	}
 	c14MapOrder(p, r)
 	c14Params(p, r)
@@ -183,6 +194,107 @@ var (
 	rePfxDef      = regexp.MustCompile(`^(ip|ipv6|\{\{frrIPFamily \$?\.?\w*\.IPFamily\}\}) prefix-list \{\{([^}]+)\}\} seq \{\{counter ([^}]+)\}\} (permit|deny) (.+)$`)
 )
 
+// c14NameScope: every object that the templates create per neighbour (prefix-lists, route-maps) is named after the
+// neighbour's whole identity - address or interface AND VRF - so that the same peer address in two VRFs does not share
+// a list. Sibling agreement: each naming function of the FuncMap that takes the neighbour uses neighbor.ID() (or reads
+// the three fields itself), its other parameters and the neighbour's family.
+func c14NameScope(p *chk.Prog, r *chk.Report, ts *chk.TemplateSet) {
+	x := r.Rule("NAME-SCOPE", "E sibling", "every FuncMap function of templateConfig that takes a *neighborConfig and returns a string derives it from neighbor.ID() (or from Addr, Iface and VRFName), from neighbor.IPFamily and from each of its other parameters; (*neighborConfig).ID() reads Addr, Iface and VRFName", 5)
+	ncT := p.LookupType(frrPkg, "neighborConfig")
+	f := ts.FuncFn
+	if ncT == nil || f == nil {
+		x.Undecided("anchor:neighborConfig", "UNDECIDED anchor missing: frr.neighborConfig")
+		return
+	}
+	var names []string
+	for n := range ts.FuncLits {
+		names = append(names, n)
+	}
+	sort.Strings(names)
+	for _, name := range names {
+		lit := ts.FuncLits[name]
+		sig := ts.Funcs[name]
+		if sig.Results().Len() != 1 || !types.Identical(sig.Results().At(0).Type(), types.Typ[types.String]) {
+			continue
+		}
+		var nb *types.Var
+		for i := 0; i < sig.Params().Len(); i++ {
+			if pt, isP := sig.Params().At(i).Type().(*types.Pointer); isP && types.Identical(pt.Elem(), ncT) {
+				nb = sig.Params().At(i)
+			}
+		}
+		if nb == nil {
+			continue
+		}
+		// the parameter objects of the literal
+		objs := map[string]types.Object{}
+		for _, fl := range lit.Type.Params.List {
+			for _, nm := range fl.Names {
+				objs[nm.Name] = f.ObjOf(nm)
+			}
+		}
+		nbObj := objs[nb.Name()]
+		viaID := false
+		fields := map[string]bool{}
+		used := map[types.Object]bool{}
+		ast.Inspect(lit.Body, func(n ast.Node) bool {
+			switch e := n.(type) {
+			case *ast.Ident:
+				if o := f.ObjOf(e); o != nil {
+					used[o] = true
+				}
+			case *ast.SelectorExpr:
+				if id, isId := ast.Unparen(e.X).(*ast.Ident); isId && f.ObjOf(id) == nbObj && nbObj != nil {
+					switch o := f.ObjOf(e.Sel).(type) {
+					case *types.Func:
+						if o.Name() == "ID" {
+							viaID = true
+						}
+					case *types.Var:
+						fields[o.Name()] = true
+					}
+				}
+			}
+			return true
+		})
+		whole := viaID || (fields["Addr"] && fields["Iface"] && fields["VRFName"])
+		x.Check(name+":named-after-the-whole-neighbour", lit.Pos(), whole, "", "the name does not include the neighbour's whole identity (ID(): address or interface, and VRF): the same peer address in two VRFs shares one list, and what is requested for one neighbour is applied to the other")
+		others := true
+		for n, o := range objs {
+			if n != "_" && o != nil && !used[o] {
+				others = false
+			}
+		}
+		x.Check(name+":uses-every-parameter", lit.Pos(), others && fields["IPFamily"], "", "the name does not depend on one of its parameters or on the neighbour's family: lists that must be distinct share a name")
+	}
+	if idf := need(x, p, frrPkg, "neighborConfig", "ID"); idf != nil {
+		okID := true
+		for _, fn := range []string{"Addr", "Iface", "VRFName"} {
+			if fld := p.LookupField(frrPkg, "neighborConfig", fn); fld == nil || !idf.MentionsField(idf.Body, fld) {
+				// through a method of the neighbour (the interface-or-address choice)
+				okID = okID && fld != nil && mentionsViaMethod(p, idf, fld)
+			}
+		}
+		x.Check("neighborConfig.ID:address-interface-and-vrf", idf.Pos(), okID, "", "the neighbour's identity leaves out its address, its interface or its VRF")
+	}
+}
+
+// mentionsViaMethod: a method of the same package called in f's body reads the field.
+func mentionsViaMethod(p *chk.Prog, f *chk.Fn, fld *types.Var) bool {
+	found := false
+	ast.Inspect(f.Body, func(n ast.Node) bool {
+		if c, ok := n.(*ast.CallExpr); ok {
+			if fo, isF := f.Callee(c).(*types.Func); isF {
+				if cf := p.FnOf(fo); cf != nil && cf.Body != nil && cf.MentionsField(cf.Body, fld) {
+					found = true
+				}
+			}
+		}
+		return !found
+	})
+	return found
+}
+
 func c14Structure(p *chk.Prog, r *chk.Report, ts *chk.TemplateSet) {
 	deny := r.Rule("TPL-DENY", "G template structure", "in template neighborfilters: there is a `route-map {{ID}}-in deny` entry; every `route-map {{ID}}-out permit` line is immediately followed by a `match ip|ipv6 address prefix-list` line (no unconditional permit); an entry that has a `set` line ends with `on-match next`, an entry without `set` does not; the `deny any` prefix-list lines are inside `if not .neighbor.HasV4Advertisements` / `HasV6Advertisements`", 10)
 	names := r.Rule("TPL-NAMES", "G template structure", "every prefix-list referenced by a `match` line is named by one of the naming functions applied to the template's neighbour, and a definition line `<family> prefix-list {{same function …}} …` exists (directly or through a variable assigned from that function) in neighborfilters or the filter templates it calls; the `match ip` / `match ipv6` keyword of a set-entry agrees with the V4 / V6 list it ranges over, and definitions use the family of the advertisement", 8)
@@ -290,11 +402,55 @@ func c14Structure(p *chk.Prog, r *chk.Report, ts *chk.TemplateSet) {
 	}
 
 	scope := r.Rule("TPL-SCOPE", "G template structure", "in neighborsession and neighborenableipfamily every `neighbor <x> …` statement names the template's own neighbour ($peer assigned from .Addr/.Iface of the argument, or .neighbor.Addr / .neighbor.Iface); route-map names are {{.ID}}-in/-out of the same neighbour; frr.tmpl invokes neighborfilters / neighborsession / neighborenableipfamily with the element of `range .Neighbors` of the router in scope", 10)
+	// a method of the neighbour that names the peer (`.Peer`): accepted when it returns the interface for an unnumbered
+	// neighbour and the address otherwise - the decision the templates used to make themselves
+	peerMethods := map[string]bool{}
+	if nt := p.LookupType(frrPkg, "neighborConfig"); nt != nil {
+		for i := 0; i < nt.NumMethods(); i++ {
+			m := nt.Method(i)
+			mf := p.FnOf(m)
+			if mf == nil || mf.Body == nil || mf.Param(0) != nil {
+				continue
+			}
+			mg := mf.Graph()
+			good, n := true, 0
+			for _, rt := range mg.Returns() {
+				res := retResults(rt)
+				if len(res) != 1 {
+					good = false
+					continue
+				}
+				n++
+				switch {
+				case mf.MatchWith("R.Iface", res[0], chk.H("R", isRecv(mf))) != nil:
+					good = good && mg.Dominated(rt, mg.GPat(false, `R.Iface == ""`, chk.H("R", isRecv(mf))))
+				case mf.MatchWith("R.Addr", res[0], chk.H("R", isRecv(mf))) != nil:
+					good = good && mg.Dominated(rt, mg.GPat(true, `R.Iface == ""`, chk.H("R", isRecv(mf))))
+				default:
+					good = false
+				}
+			}
+			if good && n == 2 {
+				peerMethods[m.Name()] = true
+			}
+		}
+	}
+	isPeerRef := func(d string) bool {
+		if d == ".neighbor.Addr" || d == ".neighbor.Iface" || d == ".Addr" || d == ".Iface" {
+			return true
+		}
+		for m := range peerMethods {
+			if d == ".neighbor."+m || d == "."+m {
+				return true
+			}
+		}
+		return false
+	}
 	for _, tn := range []string{"neighborsession", "neighborenableipfamily"} {
 		vars := ts.VarDefs(tn)
 		okPeer := len(vars["$peer"]) >= 1
 		for _, d := range vars["$peer"] {
-			if d != ".neighbor.Addr" && d != ".neighbor.Iface" && d != ".Addr" && d != ".Iface" {
+			if !isPeerRef(d) {
 				okPeer = false
 			}
 		}
@@ -307,8 +463,27 @@ func c14Structure(p *chk.Prog, r *chk.Report, ts *chk.TemplateSet) {
 			}
 			n++
 			who := strings.Fields(s)[1]
-			ok := who == "{{$peer}}" || who == "{{.neighbor.Addr}}" || who == "{{.neighbor.Iface}}" || who == "{{.Addr}}" || who == "{{.Iface}}"
+			ok := who == "{{$peer}}" || (strings.HasPrefix(who, "{{") && strings.HasSuffix(who, "}}") && isPeerRef(strings.TrimSuffix(strings.TrimPrefix(who, "{{"), "}}")))
+			viaMethod := false
+			for m := range peerMethods {
+				if who == "{{.neighbor."+m+"}}" || who == "{{."+m+"}}" {
+					viaMethod = true // the peer-naming method: the same choice $peer makes
+				}
+			}
 			scope.Check(tn+":statement#"+itoa2(n), 0, ok, "", "a neighbor statement is addressed to `"+who+"`, not to the neighbour the template was invoked for: "+s)
+			// an unnumbered peer has no address: a statement that spells the address out instead of $peer is `neighbor  …`
+			// for it. The two reviewed exceptions: the remote-as line of the numbered branch, and disable-connected-check
+			// (never emitted for an interface peer: its family is dual-stack and the helper wants IPv6 only)
+			if ok && who != "{{$peer}}" && !viaMethod {
+				fields := strings.Fields(s)
+				rest := ""
+				if len(fields) > 2 {
+					rest = fields[2]
+				}
+				okDirect := (strings.HasSuffix(who, "Addr}}") && (rest == "remote-as" || rest == "disable-connected-check")) ||
+					(strings.HasSuffix(who, "Iface}}") && rest == "interface")
+				scope.Check(tn+":statement#"+itoa2(n)+":via-$peer", 0, okDirect, "", "a neighbor statement names the peer by its address (or interface) directly instead of $peer: for an unnumbered peer (or a numbered one) the statement is attached to nobody: "+s)
+			}
 			if strings.Contains(s, "route-map") {
 				scope.Check(tn+":route-map-name#"+itoa2(n), 0, strings.Contains(s, "route-map {{.ID}}-in in") || strings.Contains(s, "route-map {{.ID}}-out out"), "", "the route-map attached to the neighbour is not {{ID}}-in / {{ID}}-out of that same neighbour")
 			}
@@ -445,6 +620,11 @@ func c14Params(p *chk.Prog, r *chk.Report) {
 			}
 		}
 		x.Check("neighborConfig."+k, lit.Pos(), ok, "", "neighborConfig."+k+" is not filled from SessionParameters."+table[k])
+	}
+	// each neighbour is described from its own session only: nothing computed for an earlier session leaks in
+	if rs, isRs := f.LoopOf(lit).(*ast.RangeStmt); isRs {
+		carried := carriedIntoIteration(f, f.Graph(), rs, lit)
+		x.Check("createConfig:neighbor-built-from-its-own-session", lit.Pos(), len(carried) == 0, "", "the neighbour entry reads "+strings.Join(carried, ", ")+", declared outside the session loop and not set on every path of an iteration: a session that leaves the setting unset inherits the value of the session visited before it (in map order)")
 	}
 	srcOK := len(f.Graph().Find(f.IsAssignPat("N.SrcAddr", "S.SourceAddress.String()"))) == 1
 	x.Check("neighborConfig.SrcAddr", lit.Pos(), srcOK, "", "neighborConfig.SrcAddr is not filled from SessionParameters.SourceAddress")
@@ -860,7 +1040,66 @@ func c14Merge(p *chk.Prog, r *chk.Report) {
 			}
 		}
 		x.Check("addToAdvertisements:merge-only-equal-prefix", af.Pos(), ok && okS, "", "an advertisement can be merged into an entry for a different prefix, or the insert position is not the sorted one")
+		c14InsertIdiom(x, af, g, cur, add)
 	}
+}
+
+// c14InsertIdiom: the insertion in the middle keeps every element. It is decided by idiom - one of
+//
+//	res := make([]T, len(cur)+1); copy(res[:i], cur[:i]); copy(res[i+1:], cur[i:]); res[i] = x; return res
+//	cur = append(cur, nil); copy(cur[i+1:], cur[i:]); cur[i] = x; return cur        (copy handles the overlap)
+//	return slices.Insert(cur, i, x)
+//	return append(cur[:i], append([]T{x}, cur[i:]...)...)
+//
+// with nothing else writing the lists; a hand-written shifting loop is not decided (and reported): an off-by-one or a
+// forward shift loses or duplicates advertisements without any test noticing for fewer than three prefixes.
+func c14InsertIdiom(x *chk.R, f *chk.Fn, g *chk.Graph, cur, add func(ast.Expr) bool) {
+	loops := 0
+	chk.InspectNoLit(f.Body, func(n ast.Node) bool {
+		switch n.(type) {
+		case *ast.ForStmt, *ast.RangeStmt:
+			loops++
+		}
+		return true
+	})
+	C, T := chk.H("C", cur), chk.H("T", add)
+	one := func(pat string, hs ...chk.HoleCheck) bool { return len(g.FindPat(pat, hs...)) == 1 }
+	stores := func(target func(ast.Expr) bool) int {
+		return len(g.Find(func(n ast.Node) bool {
+			as, ok := n.(*ast.AssignStmt)
+			if !ok {
+				return false
+			}
+			for _, l := range as.Lhs {
+				if ix, isIx := ast.Unparen(l).(*ast.IndexExpr); isIx && target(ix.X) {
+					return true
+				}
+			}
+			return false
+		}))
+	}
+	ok := false
+	switch {
+	case one("slices.Insert(C, I, T)", C, T):
+		ok = true
+	case one("append(C[:I], append(L, C[I:]...)...)", C):
+		ok = true
+	default:
+		// a fresh list of len+1 filled by two copies and one store
+		res := definedBy(g, "make(TY, len(C)+1)", C)
+		R := chk.H("R", res)
+		if one("copy(R[:I], C[:I])", R, C) && one("copy(R[I+1:], C[I:])", R, C) && len(g.Find(f.IsAssignPat("R[I]", "T", R, T))) == 1 && stores(res) == 1 {
+			ok = true
+		}
+		// in place: grow by one, shift the tail with copy, store
+		if !ok && len(g.Find(f.IsAssignPat("C", "append(C, nil)", C))) == 1 && one("copy(C[I+1:], C[I:])", C) && len(g.Find(f.IsAssignPat("C[I]", "T", C, T))) == 1 {
+			grow := g.Find(f.IsAssignPat("C", "append(C, nil)", C))[0]
+			shift := g.FindPat("copy(C[I+1:], C[I:])", C)[0]
+			store := g.Find(f.IsAssignPat("C[I]", "T", C, T))[0]
+			ok = grow.Pos() < shift.Pos() && shift.Pos() < store.Pos()
+		}
+	}
+	x.Check("addToAdvertisements:insert-keeps-every-element", f.Pos(), ok && loops == 0, "", "the insertion at the sorted position is not one of the reviewed idioms (two copies into a list one longer, grow + copy + store, slices.Insert, append of the two halves): a hand-written shift is not decided here - a wrong direction or bound loses or duplicates advertisements")
 }
 
 // c14Keys: routers and neighbours are grouped by the strings RouterName / NeighborName build; two sessions that differ in
